@@ -13,7 +13,12 @@ from .. import core, pipes, structural as st
 THEOREMS = ['Pk.C08.C08_weights', 'Pk.C08.C08_weights_len', 'Pk.C08.C08_perfect_zero', 'Pk.C08.C08_nonpos',
             'Pk.C08.weights_nonneg', 'Pk.C08.C08_floor', 'Pk.C08.C08_nonfinite', 'Pk.C08.C08_onestep_wiring',
             'Pk.C08.C08_multistep_misaligned_witness', 'Pk.C08.C08_onestep_aligned', 'Pk.C08.C08_multistep_compared',
-            'Pk.predictFlat_refines', 'Pk.predictTrajectory_refines']
+            'Pk.predictFlat_refines', 'Pk.predictTrajectory_refines',
+            'Pk.C08.C08_goodness_le_one', 'Pk.C08.C08_goodness_perfect', 'Pk.C08.C08_best_G', 'Pk.C08.C08_floor_G',
+            'Pk.C08.C08_nonfinite_G']
+METRIC_NAMES = {'mse': 'neg_mean_squared_error', 'mae': 'neg_mean_absolute_error',
+                'mape': 'neg_mean_absolute_percentage_error', 'r2': 'r2', 'ev': 'explained_variance'}
+GOOD = ('r2', 'ev')        # greater is better: not negated, best value 1
 ALG = ['poly', 'bilinear', 'const', 'delay']
 GAMMAS = [Fraction(0), Fraction(1, 2), Fraction(1), Fraction(3, 4), Fraction(1, 4)]
 
@@ -92,7 +97,7 @@ def gen_score_case(rng):
                 r[j] += rng.choice([0, 0, 1, -1, 2])
     finite = rng.random() > 0.15
     return {'ep': ep, 'm': m, 'E': E, 'P': P, 'finite': finite, 'shared_kw': rng.random() < 0.35,
-            'metric': rng.choice(['mse', 'mae']),
+            'metric': rng.choice(['mse', 'mae', 'mse', 'mae', 'mape', 'r2', 'ev']),
             'es': rng.choice(['nan', 'raise', -5.0, -0.5, -100.0, '-inf']),
             'n_steps': rng.choice([None, None, 0, 1, 2, 5]),
             'gamma': rng.choice(GAMMAS + [Fraction(3, 2), Fraction(-1, 2)] if rng.random() < 0.1 else GAMMAS)}
@@ -123,7 +128,7 @@ def run_score(c):
     if not c['finite']:
         P = P.copy()
         P[-1, -1] = np.inf
-    metric = {'mse': 'neg_mean_squared_error', 'mae': 'neg_mean_absolute_error'}[c['metric']]
+    metric = METRIC_NAMES[c['metric']]
     kw = SHARED_KW if c.get('shared_kw') else None
     before = dict(SHARED_KW)
     out = outcome(lambda: pykoop.score_trajectory(P, E, n_steps=c['n_steps'], discount_factor=float(c['gamma']),
@@ -139,7 +144,7 @@ def run_score(c):
 
 def score_line(c):
     ns = 'n' if c['n_steps'] is None else str(c['n_steps'])
-    return (f"score {c['metric']} {1 if c['finite'] else 0} {es_token(es_value(c['es']))} {ns} {fr(c['gamma'])} {c['m']} "
+    return (f"{'scoreg' if c['metric'] in GOOD else 'score'} {c['metric']} {1 if c['finite'] else 0} {es_token(es_value(c['es']))} {ns} {fr(c['gamma'])} {c['m']} "
             f"{pipes.mat_tokens(c['P'], c['ep'])} {pipes.mat_tokens(c['E'], c['ep'])}")
 
 
@@ -304,23 +309,57 @@ def oracle_formula(c):
         else:
             ok = o == ('val', float(es))
         return None if ok else f'non-finite prediction: expected error_score behaviour, got {o}'
-    num = den = 0.0
     eP, eE = st.episodes(P, c['ep']), st.episodes(E, c['ep'])
     ncols = E.shape[1] - (1 if c['ep'] else 0)
+    gq = Fraction(c['gamma'])
+    ws, pr, ex = [], [], []            # weights, predicted rows, expected rows (IC stripped), exact rationals
     for l in sorted(eE):
         a, b = eP[l][c['m']:], eE[l][c['m']:]
         for k in range(b.shape[0]):
-            w = g ** k if (c['n_steps'] is None or k < c['n_steps']) else 0.0
-            err = (a[k] - b[k]) ** 2 if c['metric'] == 'mse' else np.abs(a[k] - b[k])
-            num += w * float(np.sum(err))
-            den += w * ncols
-    if den == 0:
+            ws.append(gq ** k if (c['n_steps'] is None or k < c['n_steps']) else Fraction(0))
+            pr.append([Fraction(int(v)) for v in a[k]])
+            ex.append([Fraction(int(v)) for v in b[k]])
+    W = sum(ws)
+    if W == 0 or ncols == 0:
         return None
-    want = -num / den
+    if c['metric'] in GOOD:
+        if c['metric'] == 'r2' and len(ws) < 2:
+            return None                  # scikit-learn: not well defined (NaN -> error_score), compared by the model
+        tot = Fraction(0)
+        for j in range(ncols):
+            y = [r[j] for r in ex]
+            d = [r[j] - q[j] for r, q in zip(ex, pr)]
+            ybar = sum(w * v for w, v in zip(ws, y)) / W
+            den = sum(w * (v - ybar) ** 2 for w, v in zip(ws, y))
+            if c['metric'] == 'r2':
+                num = sum(w * v ** 2 for w, v in zip(ws, d))
+            else:
+                dbar = sum(w * v for w, v in zip(ws, d)) / W
+                num = sum(w * (v - dbar) ** 2 for w, v in zip(ws, d))
+            tot += 1 if num == 0 else (0 if den == 0 else 1 - num / den)
+        want = float(tot / ncols)
+        if want > 1 + 1e-12:
+            return f'independent formula gives a score above the best attainable value 1: {want!r}'
+    else:
+        eps = Fraction(np.finfo(np.float64).eps)
+        num = Fraction(0)
+        for w, a, b in zip(ws, pr, ex):
+            for x, y in zip(a, b):
+                if c['metric'] == 'mse':
+                    num += w * (x - y) ** 2
+                elif c['metric'] == 'mae':
+                    num += w * abs(x - y)
+                else:
+                    num += w * abs(x - y) / max(abs(y), eps)
+        want = -float(num / (W * ncols))
     if isinstance(es, float) and math.isfinite(es) and want < es:
         want = es
     if o[0] != 'val' or abs(o[1] - want) > 1e-10 * max(1.0, abs(want)):
-        return f'score {o} != weighted error formula {want!r}'
+        return f'score {o} != weighted formula {want!r} ({c["metric"]})'
+    if np.array_equal(P, E) and not (isinstance(es, float) and math.isfinite(es)):
+        best = 1.0 if c['metric'] in GOOD else 0.0
+        if o[1] != best:
+            return f'a prediction equal to the expected trajectory scores {o[1]!r}, not the best value {best} ({c["metric"]})'
     return None
 
 
@@ -343,7 +382,7 @@ def population_search(ctx):
 
 def run(ctx):
     ctx.rule = ('(a) score_trajectory on small integer trajectories: layouts x min_samples 1..3 x n_steps '
-                '{None,0,1,2,5} x discount {0,1/4,1/2,3/4,1, out-of-range} x metric {mse,mae} x error_score '
+                '{None,0,1,2,5} x discount {0,1/4,1/2,3/4,1, out-of-range} x metric {mse,mae,mape,r2,explained_variance} x error_score '
                 '{nan, raise, finite floors, -inf} x finite/non-finite predictions, compared with exact rational '
                 'arithmetic; (b) scorer wiring through random algebraic pipelines with integer Koopman matrices '
                 '(multistep/one-step, relift, all options); non-trivial = any')
@@ -372,7 +411,7 @@ def run(ctx):
             ctx.count('rejected:' + st.err_enum(ex))
             continue
         X = st.X_of(c)
-        metric = {'mse': 'neg_mean_squared_error', 'mae': 'neg_mean_absolute_error'}[c['metric']]
+        metric = METRIC_NAMES[c['metric']]
         sc = pykoop.KoopmanPipeline.make_scorer(n_steps=c['n_steps'], discount_factor=float(c['gamma']),
                                                 regression_metric=metric, error_score=es_arg(c['es']),
                                                 multistep=c['multistep'], relift_state=c['relift'])
